@@ -110,7 +110,8 @@ def run(ck):
     worst = 0.0
     progs = 0
     for i in range(n):
-        ant = gen_many_objects(rng) if (i == 2 or i % 100 == 57) else gen(rng, ck.tier)
+        ant = gen_many_objects(rng) if (i == 2 or i % 100 == 57) else \
+            antgen.gen_antenna(rng, families=['monopole_taper'], max_pulses=14) if i % 8 == 5 else gen(rng, ck.tier)
         try:
             a, s, st = evaluate(d, ant)
         except Exception as e:
